@@ -462,6 +462,36 @@ func (l Lifted) Facts() []Fact {
 	return out
 }
 
+// Top is the instruction in the function the search started from: the outermost call site, or the
+// instruction itself when it was found there.
+func (l Lifted) Top() ssa.Instruction {
+	if len(l.Via) > 0 {
+		return l.Via[0].(ssa.Instruction)
+	}
+	return l.In
+}
+
+func (l Lifted) chain() []ssa.Instruction {
+	var out []ssa.Instruction
+	for _, v := range l.Via {
+		out = append(out, v.(ssa.Instruction))
+	}
+	return append(out, l.In)
+}
+
+// LiftedDominates: a runs before b on every path to b. The two call chains are compared at the first
+// level where they part (when both are reached through the same call sites, that is inside the shared helper).
+func LiftedDominates(a, b Lifted) bool {
+	ca, cb := a.chain(), b.chain()
+	for i := 0; i < len(ca) && i < len(cb); i++ {
+		if ca[i] == cb[i] {
+			continue
+		}
+		return ca[i].Parent() == cb[i].Parent() && Dominates(ca[i], cb[i])
+	}
+	return false
+}
+
 // Call returns the instruction as a call (nil if it is not one).
 func (l Lifted) Call() ssa.CallInstruction {
 	c, _ := l.In.(ssa.CallInstruction)
